@@ -13,3 +13,4 @@ def rules(ctx):
     S.compaction_target_rules(ctx)
     S.buddy_split_rules(ctx)
     S.replaced_range_rules(ctx)
+    S.after_bound_rules(ctx)
